@@ -28,10 +28,15 @@ fn re_str(src: &mut Src, s: &StrLit, cfg: &SpellCfg) -> StrLit {
 
 pub fn re_num(src: &mut Src, n: &NumLit) -> NumLit {
     let f = n.val;
-    if f.fract() != 0.0 || f.abs() >= 1e15 || (f == 0.0 && f.is_sign_negative()) {
+    if f.fract() != 0.0 || f.abs() >= 1e15 {
         return n.clone();
     }
     let i = f as i64;
+    if i == 0 && src.chance(1, 3) {
+        // zero has negative spellings too; they denote the same number
+        let text = *src.pick(&["-0", "-0.0", "-0e0", "-0.0E+1", "0.0", "0e5"]);
+        return NumLit { text: text.to_string(), val: if text.starts_with('-') { -0.0 } else { 0.0 }, int_text: false };
+    }
     let (text, int_text) = match src.below(7) {
         0 => (i.to_string(), true),
         1 => (format!("{}.0", i), false),
